@@ -1432,6 +1432,11 @@ pub enum Src {
 	Big { base_seed: u64, pre: Vec<RawBlock>, compact: bool, post: Vec<RawBlock> },
 	/// a fresh chain of these blocks (padded with empty blocks to at least 30)
 	Short { blocks: Vec<RawBlock> },
+	/// a serving node that is reorganised across its archive header: `main` blocks padded to height
+	/// 31 (archive header at height 10); the node serves one segment of every tree (as a peer's
+	/// request would make it); then a heavier fork from height `fork_at` (2..=8) of `fork` blocks
+	/// padded to height 32 replaces the block at the archive height while the archive height stays 10
+	Reorged { main: Vec<RawBlock>, fork_at: u8, fork: Vec<RawBlock> },
 }
 
 #[derive(Clone, Debug, Serialize, Deserialize)]
@@ -1504,7 +1509,10 @@ fn sync_block() -> impl Strategy<Value = RawBlock> {
 
 pub fn sync_strategy(base_seed: u64, small_weight: u32, adversarial_weight: f64) -> impl Strategy<Value = SyncCase> {
 	let big = (prop::collection::vec(sync_block(), 0..=12), prop::bool::weighted(0.55), prop::collection::vec(sync_block(), 0..=6)).prop_map(move |(pre, compact, post)| Src::Big { base_seed, pre, compact, post });
-	let short = prop::collection::vec(sync_block(), 30..=60).prop_map(|blocks| Src::Short { blocks });
+	let short = prop_oneof![
+		1 => prop::collection::vec(sync_block(), 30..=60).prop_map(|blocks| Src::Short { blocks }),
+		1 => (prop::collection::vec(sync_block(), 20..=31), 2u8..=8, prop::collection::vec(sync_block(), 10..=30)).prop_map(|(main, fork_at, fork)| Src::Reorged { main, fork_at, fork }),
+	];
 	let corrupt = (0u8..4, any::<u8>(), 0u8..7, any::<u16>(), any::<bool>()).prop_map(|(tree, nth, kind, pick, retry_after_reset)| Corrupt {
 		tree,
 		nth,
@@ -1848,6 +1856,57 @@ fn build_source(ctx: &Ctx, src: &Src) -> Result<Source, Fail> {
 			while s.w.nodes[s.head].height() < 30 {
 				s.filler("padding")?;
 			}
+			Ok(s)
+		}
+		Src::Reorged { main, fork_at, fork } => {
+			let cb = open_box(&ctx.scratch_dir("c")).map_err(|e| Fail::new("init-fresh", e))?;
+			let w = new_world(&cb);
+			let mut s = Source {
+				cb,
+				w,
+				head: 0,
+				compacted: false,
+				spends: 0,
+				infos: BTreeMap::new(),
+			};
+			for (i, b) in main.iter().enumerate() {
+				if s.w.nodes[s.head].height() >= 31 {
+					break;
+				}
+				s.add(b, &format!("main block {}", i))?;
+			}
+			while s.w.nodes[s.head].height() < 31 {
+				s.filler("main padding")?;
+			}
+			// a peer asks for segments of the current archive state (header at height 10)
+			{
+				let seg = s.cb.c().segmenter().map_err(|e| Fail::new("segmenter-err", format!("before the reorganisation: {:?}", e)))?;
+				let id = SegmentIdentifier { height: 3, idx: 0 };
+				let _ = catch(|| seg.bitmap_segment(SegmentIdentifier { height: 1, idx: 0 }).map(|_| ()))?;
+				let _ = catch(|| seg.output_segment(id).map(|_| ()))?;
+				let _ = catch(|| seg.rangeproof_segment(id).map(|_| ()))?;
+				let _ = catch(|| seg.kernel_segment(id).map(|_| ()))?;
+			}
+			let old_archive = s.cb.c().txhashset_archive_header().map_err(|e| Fail::new("archive-header-err", format!("{:?}", e)))?;
+			// the fork: from the ancestor at height fork_at, one block longer than the main chain
+			let mut n = s.head;
+			while s.w.nodes[n].height() > *fork_at as u64 {
+				n = s.w.nodes[n].parent;
+			}
+			s.head = n;
+			for (i, b) in fork.iter().enumerate() {
+				if s.w.nodes[s.head].height() >= 32 {
+					break;
+				}
+				s.add(b, &format!("fork block {}", i))?;
+			}
+			while s.w.nodes[s.head].height() < 32 {
+				s.filler("fork padding")?;
+			}
+			let head = s.cb.c().head().map_err(|e| Fail::new("head-err", format!("{:?}", e)))?;
+			ensure!(head.last_block_h == s.w.nodes[s.head].block.hash(), "harness:reorg", "the longer fork did not become the head (head h={})", head.height);
+			let new_archive = s.cb.c().txhashset_archive_header().map_err(|e| Fail::new("archive-header-err", format!("{:?}", e)))?;
+			ensure!(new_archive.height == old_archive.height && new_archive.hash() != old_archive.hash(), "harness:reorg", "archive header not replaced at the same height: {} -> {}", old_archive.height, new_archive.height);
 			Ok(s)
 		}
 	}
@@ -2509,6 +2568,7 @@ pub fn check_sync(ctx: &Ctx, case: &SyncCase, counting: bool) -> PResult {
 			Src::Big { compact: true, .. } => "sync:source:big_chain_compacted",
 			Src::Big { .. } => "sync:source:big_chain",
 			Src::Short { .. } => "sync:source:short_chain",
+			Src::Reorged { .. } => "sync:source:reorganised_across_the_archive_header_after_serving",
 		});
 		ev.class(&format!("sync:archive_header_height:{}", archive.height));
 		ev.class(if honest { "sync:honest" } else { "sync:adversarial" });
@@ -2624,7 +2684,7 @@ pub fn part(ctx: &Ctx, part: &str, seed: u64, cases: u32) -> Option<(Value, Fail
 	match part {
 		"sync" => {
 			// each worker process builds its own big base chain from its seed
-			let strat = sync_strategy(seed, 1, 0.4);
+			let strat = sync_strategy(seed, 2, 0.4);
 			run_part(ctx, seed, cases, &strat, |c, counting| check_sync(ctx, c, counting))
 		}
 		_ => None,
